@@ -11,6 +11,7 @@
      2*b + 1 + limit <= cap : room for two such segments, a newline and one more record;
                              with b = limit this is cap >= 3*limit + 1 (production: cap = 4*limit). *)
 From SV Require Import Model.Common Model.Framing Spec.FramingSpec Proofs.FramingProofs.
+From SV Require Import Model.FramingVariants Proofs.FramingVariantProofs.
 From SV Require Model.GoSem Gen.C08Gen Proofs.C08GenEquiv.
 Open Scope nat_scope.
 
@@ -266,6 +267,66 @@ Theorem C08_example_flushes :
              Ok (st, [ex_r1 ++ NL :: ex_c1; ex_r2]).
 Proof. exact example_flush_lemma. Qed.
 Print Assumptions C08_example_flushes.
+
+(* 10. Byte-exactness: the ONLY bytes of the stream that are not handed to the consumer are the
+   newlines separating the records (and the bytes of a trailing segment that is no record).
+   (a) the reference framer: its records - plus, possibly, the one segment still open at the end of the
+       stream that the tester rejects - each followed by one newline, ARE the stream (plus the newline a
+       missing final terminator would have been).  No CR, NUL, blank ... is trimmed anywhere. *)
+Theorem C08_reference_framer_byte_exact :
+  forall (test : bytes -> bool) (s : bytes),
+  exists dropped pad,
+    (dropped = [] \/ exists x, dropped = [x] /\ test x = false) /\ (pad = [] \/ pad = [NL]) /\
+    unlines (frame test s ++ dropped) = s ++ pad.
+Proof. exact frame_cover. Qed.
+Print Assumptions C08_reference_framer_byte_exact.
+
+(* (b) the reader, for every tester, stream and fragmentation (side conditions of theorem 1) *)
+Theorem C08_records_byte_exact :
+  forall (test : bytes -> bool) (min_buf limit b : nat) (fs : list bytes),
+  1 <= limit -> 2 * b + 1 + limit <= Nat.max min_buf (limit * 3) ->
+  seg_bound test b (concat fs) ->
+  exists st' out dropped pad,
+    run_ops test (map OpRead fs ++ [OpFlushAll]) (new_mlr min_buf limit) [] = Ok (st', out) /\
+    (dropped = [] \/ exists x, dropped = [x] /\ test x = false) /\ (pad = [] \/ pad = [NL]) /\
+    unlines (out ++ dropped) = concat fs ++ pad.
+Proof. exact records_byte_exact_lemma. Qed.
+Print Assumptions C08_records_byte_exact.
+
+(* 11. The emission sites.  A record reaches the consumer from processBuffer (next record start seen),
+   Flush (tick), FlushAll (close) or checkOverflow; WHICH one is decided by segmentation and flush timing.
+   Model/FramingVariants.v is the reader with a switch per site for trimming one trailing CR.
+   (a) with every switch off it is the model of all theorems above, for every script; *)
+Theorem C08_emission_sites_variant_is_model :
+  forall (test : bytes -> bool) (ops : list op) (st : mlr) (out : list bytes),
+  run_ops_v test no_trim ops st out = run_ops test ops st out.
+Proof. exact variant_none_is_model. Qed.
+Print Assumptions C08_emission_sites_variant_is_model.
+
+(* (b) the variant trimming in processBuffer and FlushAll but not in Flush ("CRLF tolerance" added at the
+       two places where the trailing newline is cut) violates theorem 3: a stream of valid single-line
+       records, the same text, two flush schedules, different records - and not the lines; *)
+Theorem C08_cr_trim_variant_refuted :
+  exists (min_buf limit b : nat) (ls : list bytes) (ops1 ops2 : list op),
+    1 <= limit /\ 2 * b + 1 + limit <= Nat.max min_buf (limit * 3) /\
+    Forall (valid_line gt_test b) ls /\ no_flush_all ops1 /\ no_flush_all ops2 /\
+    ops_text ops1 = unlines ls /\ ops_text ops2 = unlines ls /\
+    exists st1 out1 st2 out2,
+      run_ops_v gt_test seeded_trim (ops1 ++ [OpFlushAll]) (new_mlr min_buf limit) [] = Ok (st1, out1) /\
+      run_ops_v gt_test seeded_trim (ops2 ++ [OpFlushAll]) (new_mlr min_buf limit) [] = Ok (st2, out2) /\
+      out1 <> out2 /\ out2 <> ls.
+Proof. exact cr_trim_variant_lemma. Qed.
+Print Assumptions C08_cr_trim_variant_refuted.
+
+(* (c) and trimming at all three sites violates 10(b): a byte of the stream is lost. *)
+Theorem C08_cr_trim_all_sites_refuted :
+  exists (min_buf limit b : nat) (fs : list bytes),
+    1 <= limit /\ 2 * b + 1 + limit <= Nat.max min_buf (limit * 3) /\ seg_bound gt_test b (concat fs) /\
+    exists st out,
+      run_ops_v gt_test all_trim (map OpRead fs ++ [OpFlushAll]) (new_mlr min_buf limit) [] = Ok (st, out) /\
+      forall dropped pad, unlines (out ++ dropped) <> concat fs ++ pad.
+Proof. exact cr_trim_all_not_exact_lemma. Qed.
+Print Assumptions C08_cr_trim_all_sites_refuted.
 
 (* 9. The tie to the SOURCE: Gen/C08Gen.v is regenerated by tools/go2coq from
    input/syslogprotocol/recordtest.go on every check.  For every byte string the generated Gallina
